@@ -199,72 +199,227 @@ def r7_exact_index(ctx, mi) -> None:
 
 # ----------------------------------------------------------------------- R1
 def r1_scalers(ctx, mi) -> None:
+  """Path-based symbolic execution of scaler_from_spec (and of the same-class helpers it returns through): every
+  path that ends in `cls(forward, backward, ...)` is classified by the decisions taken on it (low == high; scale ==
+  LOG / REVERSE_LOG; otherwise LINEAR) and its two functions are compared as sympy expressions."""
+  from vzstatic import pathcond
   sp = _sympy()
   bij = mi.classes.get('ModelInputArrayBijector')
   fi = bij.methods['scaler_from_spec']
   L, H = sp.symbols('L H', positive=True)
-  base_env = {'low': L, 'high': H}
-  body = fi.node.body
+  leaves = []  # (branch name, fwd (fn, env), bwd (fn, env), env, return node, owner FuncInfo)
 
-  def run_block(stmts, env) -> Tuple[Dict, Dict[str, Tuple[ast.AST, Dict]]]:
-    env = dict(env)
-    fns: Dict[str, Tuple[ast.AST, Dict]] = {}
-    for st in stmts:
-      if isinstance(st, ast.Assign) and len(st.targets) == 1:
-        t = st.targets[0]
-        if isinstance(t, ast.Name) and isinstance(st.value, ast.Lambda):
-          fns[t.id] = (st.value, dict(env))
-        elif isinstance(t, ast.Name):
+  from vzstatic import inline as _inline
+  records = _inline._record_classes(mi.tree)
+
+  def fn_of(e, env, fns):
+    if isinstance(e, ast.Lambda):
+      return (e, dict(env), env)
+    if isinstance(e, ast.Name):
+      return fns.get(e.id)
+    if isinstance(e, ast.Attribute) and isinstance(e.value, ast.Name):
+      return fns.get(f'{e.value.id}.{e.attr}')
+    if isinstance(e, ast.Subscript) and isinstance(e.value, ast.Name) and isinstance(e.slice, ast.Constant):
+      return fns.get(f'{e.value.id}[{e.slice.value}]')
+    return None
+
+  def pair_of(c: ast.Call, env, fns, depth) -> Optional[Dict]:
+    """Functions carried by a record / tuple value: {field name and position: (function, env)} for a NamedTuple
+    constructor call or for a call of a module-level / same-class helper that returns one."""
+    d = dotted(c.func) or ''
+    if d in records:
+      out = {}
+      fields = [f_ for f_, _ in records[d]]
+      for i_, a_ in enumerate(c.args):
+        v_ = fn_of(a_, env, fns)
+        if v_ is not None and i_ < len(fields):
+          out[fields[i_]] = out[i_] = v_
+      for k_ in c.keywords:
+        v_ = fn_of(k_.value, env, fns)
+        if v_ is not None and k_.arg in fields:
+          out[k_.arg] = out[fields.index(k_.arg)] = v_
+      return out or None
+    callee = mi.functions.get(d) if '.' not in d else bij.methods.get(d[4:]) if d.startswith('cls.') else None
+    if callee is None or depth > 2:
+      return None
+    params = [p_ for p_ in callee.params if p_ not in ('cls', 'self')]
+    if len(c.args) > len(params) or c.keywords:
+      return None
+    env0 = {}
+    for p_, a_ in zip(params, c.args):
+      try:
+        env0[p_] = SymEval(sp, env).ev(a_)
+      except AnalysisError:
+        pass
+    g2 = cfgmod.CFG(callee.node)
+    results = []
+    for rn in [n for n in g2.nodes if n.kind == 'stmt' and isinstance(n.ast, ast.Return) and n.ast.value is not None]:
+      for path in pathcond.paths(g2, [g2.entry], rn, limit=500):
+        env2, fns2 = dict(env0), {}
+        specp2 = params[0] if params else ''
+        run_path(path, env2, fns2, specp2, depth + 1, None)
+        v = rn.ast.value
+        if isinstance(v, ast.Call):
+          r_ = pair_of(v, env2, fns2, depth + 1)
+        elif isinstance(v, ast.Tuple):
+          r_ = {i_: fn_of(e_, env2, fns2) for i_, e_ in enumerate(v.elts) if fn_of(e_, env2, fns2) is not None}
+        else:
+          r_ = None
+        if r_:
+          results.append(r_)
+    return results[0] if results else None
+
+  def run_path(path, env, fns, specp, depth, tags) -> None:
+    for n, lab in path:
+      a = n.ast
+      if n.kind != 'stmt':
+        continue
+      if isinstance(a, ast.FunctionDef):
+        fns[a.name] = (a, dict(env), env)
+      elif isinstance(a, ast.Assign) and len(a.targets) == 1:
+        tg = a.targets[0]
+        if isinstance(tg, ast.Name) and isinstance(a.value, ast.Lambda):
+          fns[tg.id] = (a.value, dict(env), env)
+        elif isinstance(tg, ast.Name):
           try:
-            env[t.id] = SymEval(sp, env).ev(st.value)
+            env[tg.id] = SymEval(sp, env).ev(a.value)
           except AnalysisError:
-            env.pop(t.id, None)
-        elif isinstance(t, ast.Tuple) and isinstance(st.value, ast.Tuple) and len(t.elts) == len(st.value.elts):
-          vals = [SymEval(sp, env).ev(v) for v in st.value.elts]
-          for n, v in zip(t.elts, vals):
-            if isinstance(n, ast.Name):
-              env[n.id] = v
-      elif isinstance(st, ast.FunctionDef):
-        fns[st.name] = (st, dict(env))
-    return env, fns
+            env.pop(tg.id, None)
+        elif isinstance(tg, ast.Tuple) and len(tg.elts) == 2 and dotted(a.value) == f'{specp}.bounds':
+          for nm, v in zip(tg.elts, (L, H)):
+            if isinstance(nm, ast.Name):
+              env[nm.id] = v
+        elif isinstance(tg, ast.Tuple) and isinstance(a.value, ast.Tuple) and len(tg.elts) == len(a.value.elts):
+          try:
+            vals = [SymEval(sp, env).ev(v) for v in a.value.elts]
+          except AnalysisError:
+            vals = None
+          for i_, nm in enumerate(tg.elts):
+            if isinstance(nm, ast.Name):
+              if vals is None:
+                env.pop(nm.id, None)
+              else:
+                env[nm.id] = vals[i_]
 
-  branches: List[Tuple[str, List[ast.stmt], ast.AST]] = []
-  for st in body:
-    if isinstance(st, ast.If):
-      t = unparse(st.test, 0)
-      if t in ('low == high',):
-        branches.append(('degenerate', st.body, st))
-      elif 'ScaleType.LOG' in t and 'REVERSE' not in t:
-        cur = st
-        while isinstance(cur, ast.If):
-          tt = unparse(cur.test, 0)
-          name = 'LOG' if ('ScaleType.LOG' in tt and 'REVERSE' not in tt) else 'REVERSE_LOG' if 'REVERSE_LOG' in tt else '?'
-          branches.append((name, cur.body, cur))
-          if len(cur.orelse) == 1 and isinstance(cur.orelse[0], ast.If):
-            cur = cur.orelse[0]
-          else:
-            branches.append(('LINEAR', cur.orelse, cur))
-            break
-      elif 'np.isclose' in t or 'isclose' in t or 'abs(' in t:
-        branches.append(('degenerate~', st.body, st))
-  names = [b[0] for b in branches]
+  def analyse(f: FuncInfo, prefix: List[Tuple[str, bool]], depth: int) -> None:
+    g = cfgmod.CFG(f.node)
+    specp = [p for p in f.params if p not in ('cls', 'self')]
+    if not specp:
+      raise AnalysisError(f'{f.name}: no spec parameter')
+    specp = specp[0]
+    rets = [n for n in g.nodes if n.kind == 'stmt' and isinstance(n.ast, ast.Return) and isinstance(n.ast.value, ast.Call)]
+    for rn in rets:
+      call = rn.ast.value
+      d = dotted(call.func) or ''
+      is_ctor = d in ('cls', bij.name) and len(call.args) >= 2
+      helper = None
+      if d.startswith('cls.') and d.count('.') == 1 and d[4:] in bij.methods and d[4:] != 'identity' \
+          and any(isinstance(a, ast.Name) and a.id == specp for a in call.args):
+        helper = bij.methods[d[4:]]
+      if not is_ctor and helper is None:
+        continue
+      seen = set()
+      for path in pathcond.paths(g, [g.entry], rn, limit=3000):
+        env: Dict = {}
+        fns: Dict[str, Tuple[ast.AST, Dict]] = {}
+        tags: List[Tuple[str, bool]] = list(prefix)
+        for n, lab in path:
+          a = n.ast
+          if n.kind == 'test' and lab in ('T', 'F'):
+            pol = lab == 'T'
+            t = a
+            while isinstance(t, ast.UnaryOp) and isinstance(t.op, ast.Not):
+              t, pol = t.operand, not pol
+            txt = unparse(t, 0)
+            if isinstance(t, ast.Compare) and len(t.ops) == 1 and isinstance(t.ops[0], (ast.Eq, ast.NotEq)):
+              if isinstance(t.ops[0], ast.NotEq):
+                pol = not pol
+              sides = [dotted(t.left) or '', dotted(t.comparators[0]) or '']
+              if any(x.endswith('ScaleType.REVERSE_LOG') for x in sides):
+                tags.append(('REVERSE_LOG', pol))
+              elif any(x.endswith('ScaleType.LOG') for x in sides):
+                tags.append(('LOG', pol))
+              else:
+                try:
+                  vals = {SymEval(sp, env).ev(t.left), SymEval(sp, env).ev(t.comparators[0])}
+                  if vals == {L, H}:
+                    tags.append(('degenerate', pol))
+                except AnalysisError:
+                  pass
+            elif ('isclose' in txt or 'abs(' in txt or 'allclose' in txt) and any(k in txt for k in env):
+              tags.append(('degenerate~', pol))
+            continue
+          if n.kind != 'stmt':
+            continue
+          if isinstance(a, ast.FunctionDef):
+            fns[a.name] = (a, dict(env), env)
+          elif isinstance(a, ast.Assign) and len(a.targets) == 1:
+            tg = a.targets[0]
+            if isinstance(tg, ast.Name) and isinstance(a.value, ast.Lambda):
+              fns[tg.id] = (a.value, dict(env), env)
+            elif isinstance(tg, (ast.Name, ast.Tuple)) and isinstance(a.value, ast.Call) \
+                and pair_of(a.value, env, fns, depth) is not None:
+              pr = pair_of(a.value, env, fns, depth)
+              if isinstance(tg, ast.Name):
+                for k_, v_ in pr.items():
+                  fns[f'{tg.id}.{k_}'] = v_
+                  fns[f'{tg.id}[{k_}]'] = v_
+              else:
+                for i_, nm in enumerate(tg.elts):
+                  if isinstance(nm, ast.Name) and i_ in pr:
+                    fns[nm.id] = pr[i_]
+            elif isinstance(tg, ast.Name):
+              try:
+                env[tg.id] = SymEval(sp, env).ev(a.value)
+              except AnalysisError:
+                env.pop(tg.id, None)
+            elif isinstance(tg, ast.Tuple) and len(tg.elts) == 2 and dotted(a.value) == f'{specp}.bounds':
+              for nm, v in zip(tg.elts, (L, H)):
+                if isinstance(nm, ast.Name):
+                  env[nm.id] = v
+            elif isinstance(tg, ast.Tuple) and isinstance(a.value, ast.Tuple) and len(tg.elts) == len(a.value.elts):
+              try:
+                vals = [SymEval(sp, env).ev(v) for v in a.value.elts]
+              except AnalysisError:
+                vals = None
+              for i_, nm in enumerate(tg.elts):
+                if isinstance(nm, ast.Name):
+                  if vals is None:
+                    env.pop(nm.id, None)
+                  else:
+                    env[nm.id] = vals[i_]
+        true_tags = [t for t, pol in tags if pol]
+        name = 'degenerate' if 'degenerate' in true_tags else 'degenerate~' if 'degenerate~' in true_tags else \
+            'LOG' if 'LOG' in true_tags else 'REVERSE_LOG' if 'REVERSE_LOG' in true_tags else 'LINEAR'
+        if helper is not None:
+          key = (name, tuple(tags))
+          if key not in seen and depth < 2:
+            seen.add(key)
+            analyse(helper, tags, depth + 1)
+          continue
+
+        fwd, bwd = fn_of(call.args[0], env, fns), fn_of(call.args[1], env, fns)
+        key = (name, id(fwd[0]) if fwd else None, id(bwd[0]) if bwd else None, tuple(sorted((k, str(v)) for k, v in env.items())))
+        if key in seen:
+          continue
+        seen.add(key)
+        leaves.append((name, fwd, bwd, dict(env), rn.ast, f))
+
+  analyse(fi, [], 0)
+  names = [b[0] for b in leaves]
   ctx.check('degenerate' in names and 'degenerate~' not in names, 'R1', 'degenerate branch taken only for low == high', fi.node,
             '`if low == high` exactly',
             'the singleton branch is selected by an approximate test: narrow but non-degenerate ranges are shifted to 0.5 instead of '
             'being scaled onto [0, 1] (orientation and, in float32, invertibility are lost)', construct='degenerate-test', func=fi.qualname)
-  for name, stmts, node in branches:
-    if name.startswith('degenerate') and name != 'degenerate':
+  done = set()
+  for name, fwd, bwd, env, node, owner in leaves:
+    if name == 'degenerate~':
       continue
     try:
-      env, fns = run_block(stmts, base_env)
-      if name == 'degenerate':
-        fwd, bwd = fns.get('forward_fn'), fns.get('backward_fn')
-      else:
-        fwd, bwd = fns.get('scale_fn'), fns.get('unscale_fn')
       if fwd is None or bwd is None:
         raise AnalysisError(f'{name}: forward/backward function not found')
-      fe, x = _fn_expr(sp, fwd[0], fwd[1], env)
-      be, _ = _fn_expr(sp, bwd[0], bwd[1], env)
+      fe, x = _fn_expr(sp, fwd[0], fwd[1], fwd[2] if len(fwd) > 2 else env)
+      be, _ = _fn_expr(sp, bwd[0], bwd[1], bwd[2] if len(bwd) > 2 else env)
       comp = sp.simplify(be.subs(x, fe) - x)
       inv_ok = comp == 0
       if name == 'degenerate':
@@ -275,6 +430,10 @@ def r1_scalers(ctx, mi) -> None:
         f_hi = sp.simplify(fe.subs(x, H))
         orient_ok = f_lo == 0 and f_hi == 1
         detail = f'forward {fe}; backward {be}; forward(low)={f_lo}, forward(high)={f_hi}'
+      sig = (name, str(fe), str(be))
+      if sig in done:
+        continue
+      done.add(sig)
       ctx.check(inv_ok and orient_ok, 'R1', f'scaler branch {name}', node,
                 detail,
                 (f'backward(forward(x)) - x simplifies to {comp}, not 0: ' if not inv_ok else
@@ -282,8 +441,8 @@ def r1_scalers(ctx, mi) -> None:
                 construct=f'scaler-{name}', func=fi.qualname)
     except AnalysisError as e:
       raise AnalysisError(f'scaler branch {name}: {e}')
-  if len([n for n in names if n in ('LOG', 'REVERSE_LOG', 'LINEAR')]) < 3:
-    raise AnalysisError(f'scaler branches found: {names}')
+  if len({n for n in names if n in ('LOG', 'REVERSE_LOG', 'LINEAR')}) < 3:
+    raise AnalysisError(f'scaler branches found: {sorted(set(names))}')
 
 
 # ----------------------------------------------------------------------- R2
